@@ -9,10 +9,10 @@ from oracles import images as OI
 PROPERTY = "C04"
 TOL = 1e-7
 RULE = (
-    "configuration product: 2 regions (one asymmetric, 2x3 pixels per unit) x pixel size {1, 0.5} x 14 "
+    "configuration product: 2 regions (one asymmetric, 2x3 pixels per unit) x pixel size {1, 0.5} x 19 "
     "kernels (Gaussian: scalar variance, isotropic matrix, axis-aligned, correlated with r in {0.2,-0.5, "
     "0.74,0.76,-0.9,0.93,-0.95,0.99}; uniform box x2; a user kernel) x 5 weights (persistence n=1,2; "
-    "linear_ramp x2; a user weight) x skew on/off; diagrams: each of 12 points (inside, on a pixel "
+    "linear_ramp x2; a user weight) x skew on/off; diagrams: each of 16 points (inside, on a pixel "
     "border, on the region corner, outside, on the diagonal, negative birth, ...) alone and 6 pairs. "
     "Oracle per pixel: weight x mass of the kernel over the pixel's square by 1-D quadrature of the "
     "conditional law / erf products / exact box overlap; pixel squares from the public ranges and "
@@ -26,13 +26,18 @@ ASSUMPTIONS = [
 REGIONS = [((0.0, 2.0), (0.0, 2.0)), ((-1.0, 1.0), (0.0, 3.0))]
 PIXELS = [1.0, 0.5]
 CORR = [0.2, -0.5, 0.74, 0.76, -0.9, 0.93, -0.95, 0.99]
-KERNELS = ([("gauss_scalar", 0.3), ("gauss_iso", 0.5), ("gauss_diag", 0.2, 0.8)]
+KERNELS = ([("gauss_scalar", 0.3), ("gauss_iso", 0.5), ("gauss_diag", 0.2, 0.8),
+            # narrow kernels: most pixels are in the far tails, points just outside the border still leak in
+            ("gauss_scalar", 0.01), ("gauss_iso", 0.0025), ("gauss_diag", 0.01, 0.0004), ("gauss_corr", 0.0004, 0.0016, 0.93),
+            ("gauss_corr", 0.01, 0.0025, -0.95)]
            + [("gauss_corr", 0.5, 0.2, r) for r in CORR]
            + [("uniform", 1.0, 1.0), ("uniform", 0.6, 1.7), ("user", 0.5)])
 WEIGHTS = [("persistence", 1.0), ("persistence", 2.0), ("linear_ramp", 0.0, 1.0, 0.0, 1.0),
            ("linear_ramp", 0.5, 2.0, 0.5, 1.5), ("user", 2.0)]
 POINTS = [[0.7, 1.9], [1.0, 2.0], [0.0, 2.0], [3.0, 3.5], [-2.0, 5.0], [0.5, 0.5], [-0.5, 0.25],
-          [1.5, 1.75], [0.25, 2.25], [1.99, 3.0], [0.5, 1.0], [-1.0, 2.0]]
+          [1.5, 1.75], [0.25, 2.25], [1.99, 3.0], [0.5, 1.0], [-1.0, 2.0],
+          # just outside the imaged region (by about one narrow-kernel standard deviation)
+          [2.1, 3.0], [-1.05, 0.0], [0.5, 2.55], [1.95, 4.0]]
 PAIRS = [(0, 1), (2, 5), (3, 6), (0, 0), (7, 9), (4, 11)]
 
 
